@@ -200,7 +200,7 @@ func (sn *evmSnapshot) truth(contract common.Address, path string, want []byte) 
 
 var proofMutations = []string{"none", "none", "other_contract", "other_slot", "other_value_slot", "absent_key", "value_changed", "truncate_account",
 	"truncate_storage", "pad_account", "pad_storage", "reorder_storage", "two_storage_proofs", "no_storage_proof", "account_field", "storage_hash",
-	"old_root", "address_case", "long_key", "garbage_json"}
+	"old_root", "address_case", "long_key", "garbage_json", "spliced_key"}
 
 // mutateProof applies one mutation. It returns the proof bytes and whether the mutation is of the
 // "don't care" kind (extra unrelated nodes: it proves the same statement).
@@ -221,6 +221,15 @@ func mutateProof(r *rand.Rand, kind string, p ethProof, sn *evmSnapshot, older *
 			if s != slot {
 				q := sn.prove(contract, s)
 				q.StorageProof[0].Key = slot.Hex()
+				return q.json(), false
+			}
+		}
+	case "spliced_key":
+		// proof of another slot under a 64-byte key: the expected slot first, the proven slot last
+		for _, s := range sortedSlots(sn.storage[contract]) {
+			if s != slot {
+				q := sn.prove(contract, s)
+				q.StorageProof[0].Key = slot.Hex() + s.Hex()[2:]
 				return q.json(), false
 			}
 		}
@@ -370,4 +379,23 @@ func normHex(s string) string {
 		s = "0" + s
 	}
 	return "0x" + s
+}
+
+// spliceAck (an acknowledgement carries no packet identity): for the acknowledgement pk of a host packet, pick
+// another acknowledged host packet X whose acknowledgement bytes differ, and build "X's acknowledgement and
+// X's storage proof under the 64-byte key slot(pk) || slot(X)". ok=false: no such X.
+func spliceAck(pk *bscPacket, all []*bscPacket, sn *evmSnapshot, contract common.Address) (ack []byte, proof []byte, ok bool) {
+	for _, x := range all {
+		if x.ack == nil || x == pk || string(x.ack) == string(pk.ack) {
+			continue
+		}
+		sx := slotFor(x.path)
+		if _, there := sn.storage[contract][sx]; !there {
+			continue
+		}
+		q := sn.prove(contract, sx)
+		q.StorageProof[0].Key = slotFor(pk.path).Hex() + sx.Hex()[2:]
+		return x.ack, q.json(), true
+	}
+	return nil, nil, false
 }
